@@ -12,7 +12,7 @@ def run(ctx):
     for name, (prefix, sname) in STAGES.items():
         lifecycle(ctx, name, prefix, extra_summaries=_ls())
     limiter(ctx, {'step', 'lifecycle'})
-    sorter(ctx, want_order=True, want_topn=False)
+    sorter(ctx, want_order=True, want_topn=True)
     read_input(ctx, ['read.only_objects_and_arrays', 'read.one_context_per_value'])
 
 
